@@ -191,6 +191,14 @@ func verifToken(name string, lg Language) string {
 	return s
 }
 
+// verifByteToken: a token of n ASCII lowercase letters (each letter arbitrary) that is no word of any
+// list; unlike verifToken its text is visible byte by byte to code that inspects it.
+func verifByteToken(name string, n int) string {
+	var s string
+	verifGet(name, &s)
+	return s
+}
+
 // verifPre: an arbitrary string whose NFKD form is nf. Natively one of several spellings.
 func verifPre(name string, nf string) string {
 	form := 0
@@ -574,6 +582,34 @@ func H_C03(lg Language, n int, gap int) {
 
 // counting corollary: for fixed first n-1 words, two different last words with the same
 // entropy bits are never both accepted.
+// H_C03_bytes: n-1 canonical words (indices symbolic) and, at position pos, a non-list token of L
+// arbitrary lowercase letters: whatever the letters are, the sentence is rejected with the error that
+// names the token (C03 membership, C15 kind). Decides code that hashes, measures or scans token text.
+// sym = 1: the other words have symbolic indices; sym = 0: they are the fixed words 97*i mod 2048
+// (keeps code that scans every word's text inside the encoder's reach).
+func H_C03_bytes(lg Language, n int, L int, pos int, sym int) {
+	words := make([]string, n)
+	for i := range words {
+		if i == pos {
+			words[i] = verifByteToken("b0", L)
+		} else if sym == 1 {
+			words[i] = verifGolden(lg, verifIntRange("w"+itoa(i), 0, 2047))
+		} else {
+			words[i] = verifGolden(lg, (97*i)%2048)
+		}
+	}
+	m := strings.Join(words, " ")
+	verifObserve("mnemonic", m)
+	err := CheckMnemonic(m, lg)
+	verifAssert(err != nil, "non-list-token-rejected")
+	verifAssert(!IsMnemonicValid(m, lg), "non-list-token-invalid")
+	if err != nil {
+		verifAssert(verifAnd(!errors.Is(err, ErrWordLen), !errors.Is(err, ErrChecksumIncorrect)), "unknown-token-gives-other-error")
+		verifAssert(strings.Contains(err.Error(), words[pos]), "error-names-the-token")
+	}
+	verifReach("end")
+}
+
 func H_C03_count(lg Language, n int) {
 	words := make([]string, n)
 	for i := 0; i < n-1; i++ {
@@ -743,6 +779,19 @@ type verifReader struct {
 	whole    bool // deliver everything asked for, never fail
 	trickle  bool // one byte per read, after `idle` reads that deliver nothing
 	idle     int
+	stuck    int // > 0: after an optional first short delivery every read fails with this kind, nothing delivered
+}
+
+func stuckErrKind(kind int) error {
+	switch kind {
+	case 1:
+		return io.EOF
+	case 2:
+		return io.ErrUnexpectedEOF
+	case 4:
+		return verifTempErr{}
+	}
+	return errVerifOther
 }
 
 func (r *verifReader) Read(p []byte) (int, error) {
@@ -756,6 +805,18 @@ func (r *verifReader) Read(p []byte) (int, error) {
 		p[0] = r.stream[r.pos]
 		r.pos++
 		return 1, nil
+	}
+	if r.stuck > 0 {
+		verifAssume(c < r.maxCalls)
+		if c == 0 && len(p) > 0 {
+			k := verifIntRange("k0", 0, len(p)-1)
+			if k > 0 {
+				copy(p[:k], r.stream[:k])
+				r.pos += k
+				return k, nil
+			}
+		}
+		return 0, stuckErrKind(r.stuck)
 	}
 	if r.whole {
 		verifAssume(r.pos+len(p) <= len(r.stream))
@@ -801,6 +862,24 @@ func H_C06(lg Language, n int, R int) {
 		verifAssert(got == "", "error-gives-empty-string")
 		verifAssert(r.pos < L, "error-only-if-source-short")
 	}
+	verifReach("end")
+}
+
+// a source that gets stuck: an optional first short delivery (k0 < 4n/3 bytes), then every further read
+// fails the same way and delivers nothing, for up to R reads: however persistent the caller is, the
+// result is an error and the empty string.
+func H_C06_stuck(lg Language, n int, R int) {
+	L := n + n/3
+	stream := verifBytes("s", L)
+	r := &verifReader{stream: stream, maxCalls: R, stuck: verifIntRange("kind", 1, 4)}
+	old := {{READER}}
+	{{READER}} = r
+	got, err := NewMnemonic(n, lg)
+	{{READER}} = old
+	verifObserve("got", got)
+	verifObserveInt("delivered", r.pos)
+	verifAssert(err != nil, "stuck-source-gives-error")
+	verifAssert(got == "", "error-gives-empty-string")
 	verifReach("end")
 }
 
@@ -1437,6 +1516,8 @@ var verifHarnesses = map[string]func(a []int64){
 	"H_C02_complete":    func(a []int64) { H_C02_complete(Language(a[0]), int(a[1])) },
 	"H_C03":             func(a []int64) { H_C03(Language(a[0]), int(a[1]), int(a[2])) },
 	"H_C03_count":       func(a []int64) { H_C03_count(Language(a[0]), int(a[1])) },
+	"H_C06_stuck":       func(a []int64) { H_C06_stuck(Language(a[0]), int(a[1]), int(a[2])) },
+	"H_C03_bytes":       func(a []int64) { H_C03_bytes(Language(a[0]), int(a[1]), int(a[2]), int(a[3]), int(a[4])) },
 	"H_C04":             func(a []int64) { H_C04() },
 	"H_C11":             func(a []int64) { H_C11() },
 	"H_C04_split":       func(a []int64) { H_C04_split() },
